@@ -73,6 +73,32 @@ def compute(seed, n_per, dtypes):
     return out
 
 
+def special_cases():
+    """corner inputs of the kernels that exist in both implementations (outcome digests, compared like the programs)"""
+    from tenpy.linalg import charges
+    out = {}
+
+    def attempt(f):
+        try:
+            r = f()
+            return r.tolist() if hasattr(r, 'tolist') else (list(map(lambda t: t.tolist() if hasattr(t, 'tolist') else str(type(t).__name__), r))
+                                                            if isinstance(r, tuple) else r)
+        except Exception as e:
+            return 'raises ' + type(e).__name__
+    for qn in (1, 2):
+        ch = charges.ChargeInfo([1] * qn)
+        for n in (0, 1, 3):
+            q = np.zeros((n, qn), dtype=np.int64)
+            leg = charges.LegCharge.from_qflat(ch, q)
+            out[f'leg_with_{n}_indices_{qn}_charges|0|0'] = {
+                'find_row_differences': attempt(lambda: charges._find_row_differences(q)),
+                'is_bunched': attempt(lambda: bool(leg.is_bunched())), 'is_sorted': attempt(lambda: bool(leg.is_sorted())),
+                'bunch': attempt(lambda: leg.bunch()[0]), 'sort': attempt(lambda: leg.sort()[0]),
+                'map_blocks': attempt(lambda: charges._map_blocks(np.array([0] * n, dtype=np.intp))),
+                'make_stride': attempt(lambda: charges._make_stride([2] * max(n, 1), True))}
+    return out
+
+
 def which_config():
     import tenpy.linalg.np_conserved as npc
     from tenpy.tools import optimization
@@ -84,7 +110,9 @@ DT = {'float64': np.float64, 'complex128': np.complex128, 'int64': np.int64, 'fl
 if __name__ == '__main__':
     seed, n_per, outfile = int(sys.argv[1]), int(sys.argv[2]), sys.argv[3]
     dts = [DT[x] for x in sys.argv[4].split(',')]
-    res = {'config': which_config(), 'cases': compute(seed, n_per, dts)}
+    cases = compute(seed, n_per, dts)
+    cases.update(special_cases())
+    res = {'config': which_config(), 'cases': cases}
     with open(outfile, 'w') as f:
         json.dump(res, f)
     sys.exit(0)
